@@ -191,6 +191,13 @@ def templates(tier):
         yield "lambda", f"g = lambda q: q * 2\nreturn g({e1})"
         yield "annotated-assign", f"t: float = {e1}\nreturn t + ({e2})"
         yield "with-default-compare", f"if {e1} > {e2}:\n    return 1.0\nreturn 0.0"
+    # statements without influence on the value (docstring, pass, assert, bare expression) in front of and
+    # between branching code whose branches update a name non-idempotently
+    for skip, c, e1 in it.product(('"""Doc."""', "pass", "assert x > -10", "x + y", '"""Doc."""\npass'), Cm, Em[:3]):
+        yield "skipped-then-branch-update", f"{skip}\nt = {e1}\nif {c}:\n    t = t / 2.0 + 1.0\nreturn t"
+        yield "skipped-then-branch-update", f"t = {e1}\n{skip}\nif {c}:\n    t = t * t - 1.0\nelse:\n    t = t + 3.0\nreturn t * 2"
+        yield "skipped-inside-branch", f"t = {e1}\nif {c}:\n    {skip.splitlines()[0]}\n    t = t - 1.0\nreturn t"
+        yield "skipped-then-early-return", f"{skip}\nif {c}:\n    return {e1}\nt = {Ef[0]}\nif x > y:\n    t = t + 1.0\nreturn t"
 
 
 def build_functions(tier):
@@ -262,6 +269,8 @@ def check(case):
     from mxlpy.meta.source_tools import fn_to_sympy
 
     logging.getLogger("mxlpy").setLevel(logging.CRITICAL)
+    if case.get("family") == "rebind":
+        return check_rebind(case)
     src, ren, tid = case["src"], case["ren"], case["tid"]
     fn = get_function(src)
     names = RENAMINGS[ren]
@@ -313,6 +322,63 @@ def _close(a, b):
     return abs(a - b) <= 1e-9 + 1e-9 * max(abs(a), abs(b))
 
 
+REBIND_SRC = '''
+def hr(a, b):
+    return a - 2 * b
+
+
+def hr_alt(a, b):
+    return a * b + 1.0
+
+
+def uses_helper(x, y):
+    return hr(x, y) * 2.0 + y
+
+
+def uses_helper_twice(x, y):
+    t = hr(y, x)
+    return t + hr(x, 1.0)
+'''
+
+
+def check_rebind(case):
+    """History: translate f, rebind the helper it calls in its module, translate again."""
+    import importlib
+    import logging
+
+    import sympy
+    from mxlpy.meta.source_tools import fn_to_sympy
+
+    logging.getLogger("mxlpy").setLevel(logging.CRITICAL)
+    d = _gen_dir()
+    name = f"mc_c06_rebind_{sha12([case, __import__('os').getpid()])}"
+    (d / f"{name}.py").write_text(REBIND_SRC)
+    if str(d) not in sys.path:
+        sys.path.insert(0, str(d))
+    importlib.invalidate_caches()
+    mod = importlib.import_module(name)
+    fn = getattr(mod, case["fn"])
+    steps = case["steps"]  # e.g. ["translate", "rebind", "translate"]
+    for i, st in enumerate(steps):
+        if st == "rebind":
+            mod.hr = mod.hr_alt
+            continue
+        try:
+            expr = fn_to_sympy(fn, origin="c06", model_args=[sympy.Symbol("x"), sympy.Symbol("y")])
+        except Exception:  # noqa: BLE001
+            continue
+        if expr is None:
+            continue
+        for vx in GRID:
+            for vy in GRID:
+                want = fn(vx, vy)
+                got = evaluate_expr(expr, ["x", "y"], [vx, vy])
+                if not _close(got, float(want)):
+                    return outcome(False, "unsound", symptom="unsound:helper-rebound", nontrivial=True,
+                                   detail=f"after steps {steps[: i + 1]}: {case['fn']}(x={vx}, y={vy})={want} but expression {expr} gives {got}")
+    return outcome(True, "sound", nontrivial=True)
+
+
 def replay(case):
     return check(case)
 
@@ -327,5 +393,8 @@ def run(ctx):
     load_functions(funcs, gen)
     cases = [{"src": src, "tid": tid, "ren": ren} for (_f, tid, src) in funcs for ren in RENAMINGS]
     ctx.note(f"{len(funcs)} distinct function bodies x {len(RENAMINGS)} renamings = {len(cases)} cases, grid {len(GRID)}x{len(GRID)}")
+    for fn_name in ("uses_helper", "uses_helper_twice"):
+        for steps in (["translate", "rebind", "translate"], ["rebind", "translate"], ["translate", "translate", "rebind", "translate"]):
+            cases.append({"family": "rebind", "fn": fn_name, "steps": steps})
     ctx.evaluate(cases, timeout=120)
     ctx.coverage_extra.update({"bodies": len(funcs), "renamings": list(RENAMINGS), "templates": sorted({t for _f, t, _s in funcs})})
